@@ -1762,7 +1762,8 @@ class EventType(VersionedOntologyElement, MutableMapping):
             'number:bigint': int,
             'number:float': float,
             'number:double': float,
-            'number:decimal': Decimal
+            'number:decimal': Decimal,
+            'number:currency': Decimal
         }
 
         event_properties = defaultdict(list)
